@@ -357,7 +357,7 @@ pub(crate) fn extract_code_block_start(line: &str) -> Option<(&str, &str, &str)>
                 return Some((
                     &line[0..language_start],
                     (line[language_start..index].trim_end()),
-                    &line[index..],
+                    line[index..].trim_end(),
                 ));
             }
         } else if ch != '`' {
@@ -369,7 +369,7 @@ pub(crate) fn extract_code_block_start(line: &str) -> Option<(&str, &str, &str)>
         }
     }
 
-    language_start.map(|index| (&line[0..index], &line[index..], ""))
+    language_start.map(|index| (&line[0..index], line[index..].trim_end(), ""))
 }
 
 pub(crate) trait NumberedLines {
